@@ -460,6 +460,29 @@ def cases(rng, tier):
     # one factor to a high power: multiplicity loop
     for g, e in [([1, 1], 7), ([1, 1], 12), ([-1, 2], 9), ([1, 1, 1], 6), ([0, 1], 11)] + ([([1, 1], 30), ([1, 0, 1], 12), ([-2, 0, 0, 1], 8)] if th else []):
         out.append(lib_case(rng, zscal(rng.choice([1, -1, 3, -12]), zpow(g, e)), 'high-multiplicity'))
+    # ---- factors whose p-adic expansions share zero digits for the prime p the routine will pick: roots r_i = d_i + p^k t_i with
+    # distinct digits d_i mod p (so p does not divide the discriminant) while every smaller prime does divide it (two roots
+    # congruent) -- the Hensel lifting then has steps whose correction term is zero, and later steps where it is not
+    def zero_digit_product():
+        for _ in range(400):
+            pz = rng.choice([3, 3, 5, 7])
+            kz = rng.choice([2, 2, 3])
+            m = rng.randrange(2, min(pz, 4) + 1)
+            ds = rng.sample(range(pz), m)
+            rs = [d + pz ** kz * rng.randrange(0, 4) for d in ds]
+            if len(set(rs)) < m or all(r_ < pz for r_ in rs): continue
+            diff = 1
+            for i_ in range(m):
+                for j_ in range(i_): diff *= rs[i_] - rs[j_]
+            if any(diff % q_ for q_ in (2, 3, 5, 7) if q_ < pz) or diff % pz == 0: continue
+            return [[r_, 1] for r_ in rs]
+        return [[1, 1], [9, 1], [11, 1]]
+    for _ in range(160 if th else 40):
+        lin = zero_digit_product()
+        f = zprod(lin)
+        if rng.random() < 0.3: f = zmul(f, zpow(rng.choice(lin), rng.choice([1, 2])))
+        out.append(lib_case(rng, zscal(rng.choice([1, 1, -1, -5, 2]), f), 'zero-p-adic-digits'))
+    out.append(lib_case(rng, [99, 119, 21, 1], 'zero-p-adic-digits'))
     # ---- x^n - 1, x^n + 1
     for n in range(1, (24 if th else 12) + 1):
         out.append(lib_case(rng, [-1] + [0] * (n - 1) + [1], 'x^n-1'))
